@@ -708,17 +708,32 @@ def _join(eng, sep, parts):
 
 
 @SM('find')
-def _find(eng, s, sub, start=0):
+def _find(eng, s, sub, start=0, end=None):
     s, sub = norm_str(s), norm_str(sub)
-    if isinstance(s, str) and isinstance(sub, str):
-        return s.find(sub, start)
-    if not (isinstance(sub, str) and len(sub) == 1 and isinstance(start, int)):
+    if isinstance(s, str) and isinstance(sub, str) and isinstance(start, int) and (end is None or isinstance(end, int)):
+        return s.find(sub, start) if end is None else s.find(sub, start, end)
+    if not (isinstance(sub, str) and len(sub) == 1):
         raise Unsupported('find on symbolic string')
     ss = SymStr.of(s)
-    e = z3.IntVal(-1)
-    for k in range(ss.cap - 1, start - 1, -1):
-        e = z3.If(z3.And(to_bool(V._lt(k, ss.n)), to_bool(z_eq(ss.chars[k], ord(sub)))), k, e)
-    return concretize(e)
+    if end is None and isinstance(start, int) and start >= 0 and not getattr(eng, 'find_branches', False):
+        e = z3.IntVal(-1)
+        for k in range(ss.cap - 1, start - 1, -1):
+            e = z3.If(z3.And(to_bool(V._lt(k, ss.n)), to_bool(z_eq(ss.chars[k], ord(sub)))), k, e)
+        return concretize(e)
+    # deciding version: the position is found by branching character by character, so it is a concrete index on every path
+    # (negative bounds count from the end only for strings of known length)
+    def bound(b):
+        if isinstance(b, int) and b < 0:
+            if not ss.fixed: raise Unsupported('find with a negative bound on a string of symbolic length')
+            return max(0, ss.n + b)
+        if is_z3(b) and eng.branch(b < 0): raise Unsupported('find with a symbolic negative bound')
+        return b
+    start, end = bound(start), (None if end is None else bound(end))
+    for k in range(ss.cap):
+        inside = z_and(V._lt(k, ss.n), V._le(start, k), True if end is None else V._lt(k, end))
+        if eng.branch(to_bool(z_and(inside, z_eq(ss.chars[k], ord(sub))))):
+            return k
+    return -1
 
 
 @SM('index')
@@ -1705,3 +1720,7 @@ MODULES = {
     'numbers': {'Number': _TypeTag('Number', lambda x: (isinstance(x, (int, Fraction, float)) and not isinstance(x, bool)) or (is_z3(x) and (z3.is_real(x) or z3.is_int(x))))},
     'scipy.spatial': {'cKDTree': Builtin('cKDTree', _ckdtree)},
 }
+
+
+from . import rx as _rx          # the `re` model (pyvc/rx.py)
+MODULES['re'] = _rx.module_table()
